@@ -31,10 +31,17 @@ def raw_tracks():
     return _CACHE["raw"]
 
 
+def duration(seq):
+    """duration of a Sequence through the observer (the library's get_sequence_duration raises on an empty sequence)"""
+    from vmon import oracle as orc
+    pk = orc.peek(seq)
+    return pk[2] if pk else 0
+
+
 def window(rng, min_len=24, max_len=400, normalise=True):
     """a copy of a random window of a random real track: (descriptor, Sequence)"""
     name, ti, s = rng.choice(raw_tracks())
-    d = s.get_sequence_duration()
+    d = duration(s)
     ln = rng.randint(min_len, max_len)
     off = rng.randrange(0, max(1, d - ln))
     ps = s.split([off, ln]) if off > 0 else s.split([ln])
